@@ -9,8 +9,11 @@ if REPO not in sys.path:
 sys.dont_write_bytecode = True
 os.environ.setdefault("PYTHONDONTWRITEBYTECODE", "1")
 logging.disable(logging.CRITICAL)
-if sys.getrecursionlimit() < 20000:
-    sys.setrecursionlimit(20000)
+# tealer's path search and DFS helpers are recursive; the generated programs need a few hundred frames.
+# Keep the limit far below what would overflow the C stack, so that a runaway recursion in the code
+# under test surfaces as RecursionError (a reportable internal error) and never as a dead worker.
+if sys.getrecursionlimit() < 3000:
+    sys.setrecursionlimit(3000)
 
 # printers / detector output write below TEALER_ROOT_OUTPUT_DIR (read once, at import of tealer.utils.output)
 import atexit  # noqa: E402
